@@ -79,7 +79,7 @@ func (c02) Parties() map[string]string {
 	return map[string]string{"cors.Middleware": "real", "browser (Fetch client)": "model", "intermediary altering Access-Control-Request-Headers": "model (fault injector F5)", "wrapped handler": "stub (constant)", "what-the-Config-means predicate": "model (independent, from documentation)"}
 }
 func (c02) FaultKinds() []string {
-	return []string{"F5_ows", "F5_empty_elements", "F5_split_lines", "F5_empty_line"}
+	return []string{"F5_ows", "F5_empty_elements", "F5_split_lines", "F5_empty_line", "F5_ows_around_empty_element"}
 }
 func (c02) Probes() []string {
 	return []string{"verdict_success", "verdict_fail_preflight", "verdict_fail_actual", "preflight_needed", "no_preflight_needed", "debug_on_failing_preflight", "authorization_under_star", "credentialed_intent", "pna_intent", "method_normalised", "altered_preflight_sent", "state_reached_via_history_route"}
@@ -195,8 +195,8 @@ func (c02) Gen(r *R, tier string) any {
 		p.Other = &o
 		p.Routes = [2]int{r.Intn(5), r.Intn(5)}
 	}
-	k := r.Intn(4)
-	kinds := []string{"ows_left", "ows_right", "ows_both", "empty", "split", "split", "empty_line"}
+	k := pick(r, []int{0, 1, 2, 3, 3, 4, 6})
+	kinds := []string{"ows_left", "ows_right", "ows_both", "empty", "empty", "split", "split", "empty_line"}
 	for i := 0; i < k; i++ {
 		p.Alts = append(p.Alts, Alteration{Kind: pick(r, kinds), At: r.Intn(8), Tab: r.P(0.4), N: pick(r, []int{1, 1, 2, 3, 5, 8, 16})})
 	}
@@ -323,7 +323,7 @@ func alter(names []string, alts []Alteration, c *Ctx) []string {
 				n++
 			}
 			for _, e := range l {
-				if e == "" {
+				if strings.Trim(e, " \t") == "" {
 					n++
 				}
 			}
@@ -360,6 +360,18 @@ func alter(names []string, alts []Alteration, c *Ctx) []string {
 		el := lines[li][ei]
 		padL := strings.HasPrefix(el, " ") || strings.HasPrefix(el, "\t")
 		padR := strings.HasSuffix(el, " ") || strings.HasSuffix(el, "\t")
+		if strings.Trim(el, " \t") == "" && strings.HasPrefix(a.Kind, "ows_") {
+			// an EMPTY element may be padded too: one OWS byte, or one on each side
+			switch {
+			case el == "" && a.Kind == "ows_both":
+				lines[li][ei] = ws + " "
+				c.hit("F5_ows_around_empty_element")
+			case el == "":
+				lines[li][ei] = ws
+				c.hit("F5_ows_around_empty_element")
+			}
+			continue
+		}
 		switch a.Kind {
 		case "ows_left":
 			if el != "" && !padL {
